@@ -72,6 +72,39 @@ Proof.
 Qed.
 Print Assumptions ISISSpeaker_hello_reflects_adjacency.
 
+(* What a speaker S concludes from the hello bytes another speaker T emits on a common link: the
+   C31 verdict is "lists us" exactly when T's neighbor table names S (single neighbor, not Down,
+   learnt with S's system id and circuit id). The abstract lists_me flag of Model/Adj.v is the
+   three-way TLV that went over the wire. (A TLV without neighbor fields reads as system id 0 /
+   circuit 0, hence the non-zero system id.) *)
+Theorem ISISSpeaker_verdict_of_emitted : forall S f T ft, cfg_ok T -> area_ok T -> if_ok T ft ->
+  be_val (sp_sys S) <> 0 ->
+  pfx_contains (if_addr f) (if_plen f) (if_addr ft) = true ->
+  exists h, C.decode (hello_bytes T ft) = C.Ok (C.mkPacket hdr_hello (C.BHello h)) /\
+    C.hl_sys h = sp_sys T /\ C.hl_hold h = u16 (sp_hold T) /\
+    hello_verdict S f h = (if names T ft S f then A.Lists else A.NotLists) /\
+    info_of_hello h = mkInfo (sp_sys T) (u32 (if_index ft)) [u32 (if_addr ft)].
+Proof. exact verdict_of_emitted. Qed.
+Print Assumptions ISISSpeaker_verdict_of_emitted.
+
+(* Two-speaker closure, for ALL configurations: two speakers with one interface each on a common
+   link (addresses inside each other's subnet, non-zero system ids, links up, no neighbors yet), each
+   fed the hello BYTES the other one emits: after the first hello in each direction both neighbor
+   tables hold the other side in Init, after the second both adjacencies are Up. *)
+Theorem ISISSpeaker_two_speaker_closure : forall SA SB fa fb ma mb,
+  cfg_ok SA -> cfg_ok SB -> area_ok SA -> area_ok SB ->
+  be_val (sp_sys SA) <> 0 -> be_val (sp_sys SB) <> 0 ->
+  sp_ifs SA = [fa] -> sp_ifs SB = [fb] -> if_up fa = true -> if_up fb = true ->
+  if_nbrs fa = [] -> if_nbrs fb = [] -> link_compat fa fb ->
+  let B1 := recv_pdu SB 0 ma (hello_of_first SA) in
+  let A1 := recv_pdu SA 0 mb (hello_of_first B1) in
+  let B2 := recv_pdu B1 0 ma (hello_of_first A1) in
+  let A2 := recv_pdu A1 0 mb (hello_of_first B2) in
+  nbr_state B1 ma = Some A.Init /\ nbr_state A1 mb = Some A.Init /\
+  nbr_state B2 ma = Some A.Up /\ nbr_state A2 mb = Some A.Up.
+Proof. exact two_speaker_closure. Qed.
+Print Assumptions ISISSpeaker_two_speaker_closure.
+
 (* The own LSP as flooded decodes (C30) to itself: its sequence number is the one it was generated
    with, its extended IS reachability TLV (type 22, no decoder: it comes back as the bytes written)
    names exactly the Up adjacencies; and serving an update request installs that LSP with sequence
